@@ -5,7 +5,7 @@ import itertools, json, os, random, concurrent.futures
 import vlib, pydiff
 
 THEOREMS = ["C14_len_counts_code_points", "C14_pos_is_prefix_width", "C14_slice_by_code_points", "C14_repr_eval_roundtrip",
-            "C14_find_by_code_points", "C14_find_is_least_occurrence", "C14_find_none_means_absent", "C14_startswith_by_code_points", "C14_contains_by_code_points"]
+            "C14_find_by_code_points", "C14_find_is_least_occurrence", "C14_find_none_means_absent", "C14_startswith_by_code_points", "C14_contains_by_code_points", "C14_count_by_code_points"]
 ALPHA = ["a", "b", " ", "'", '"', "\\", "\n", "\x00", "\x7f", "é", "€", "\U0001F600", "ß"]
 
 def lit(s):
@@ -144,7 +144,7 @@ def coq_search(name, rows):
       "Definition b2z (b : bool) : Z := if b then 1%Z else 0%Z.\n"
       "Definition ok (c : nat * list N * list N * Z * Z * Z) : bool := let '(k, s, sub, b, e, o) := c in\n"
       "  match k with O => Z.eqb (find_model (encode s) (encode sub) b e) o && Z.eqb (cp_find s sub b e) o\n"
-      "  | 1%nat => Z.eqb (count_model (encode s) (encode sub) b e) o\n"
+      "  | 1%nat => Z.eqb (count_model (encode s) (encode sub) b e) o && Z.eqb (cp_count s sub b e) o\n"
       "  | _ => Z.eqb (b2z (startswith_model (encode s) (encode sub) b e)) o && Z.eqb (b2z (cp_startswith s sub b e)) o end.\n"
       "Fixpoint bad (i : nat) (l : list (nat * list N * list N * Z * Z * Z)) : list nat := match l with [] => [] | c :: r => if ok c then bad (S i) r else i :: bad (S i) r end.\n"
       "Definition M := Eval vm_compute in bad 0 cases.\nPrint M.\n")
@@ -256,7 +256,7 @@ def check(res):
         rule="all strings of length <= 2 and seeded strings of length 3..9 over an alphabet of 1-, 2-, 3- and 4-byte characters, both quotes, backslash, newline, NUL and DEL; per string: len, iteration, every index, slices, in/find(+start/end)/count/startswith/endswith/split/replace/join with substrings taken from the string and the alphabet, strip, comparison, repetition, ord/chr, repr, eval(repr(x)) == x (also nested in tuple/list with int/float/big int); compared with CPython; non-trivial = the string contains a multi-byte character",
         samples=[dict(string=[hex(ord(c)) for c in ss[200]], first_lines=impl[200].get("out", "").splitlines()[:3])],
         distribution=dict(strings=len(ss), lines=n, model_checked_slices=len(rows), model_checked_reprs=len(rcases), model_checked_searches=len(srows)), oracle_disagreements=len(mism),
-        modelled_not_verified=["strings.Index/HasPrefix/Count as list functions (Model/StrSearch.v: index_from, is_prefix, count_go; find/startswith/in proved equal to the code-point rule, count tied by correspondence only)", "strings.Split/Replace (CPython differential only)", "strconv.IsPrint (a parameter of the repr theorem, measured in the correspondence)", "repr of bytes/float/containers (CPython differential only)", "unicode tables"])
+        modelled_not_verified=["strings.Index/HasPrefix/Count as list functions (Model/StrSearch.v: index_from, is_prefix, count_go; find/startswith/in/count proved equal to the code-point rule)", "strings.Split/Replace (CPython differential only)", "strconv.IsPrint (a parameter of the repr theorem, measured in the correspondence)", "repr of bytes/float/containers (CPython differential only)", "unicode tables"])
     if mism:
         case, got, exp = mism[0]
         res.violation("counterexample", "string operation differs from Python's code-point semantics", dict(input=case, expected=exp, observed=got,
